@@ -1,0 +1,15 @@
+//go:build verif
+
+package tk
+
+// VerifCodeAreaInternals exposes the unexported bookkeeping of a CodeArea made
+// by NewCodeArea to the verification harness: the consecutively inserted text,
+// the buffer seen at the last insertion, whether a bracketed paste is in
+// progress and the text pasted so far. Only compiled with the "verif" build
+// tag.
+func VerifCodeAreaInternals(w CodeArea) (inserts string, last CodeBuffer, pasting bool, pasteBuffer string) {
+	c := w.(*codeArea)
+	c.StateMutex.RLock()
+	defer c.StateMutex.RUnlock()
+	return c.inserts, c.lastCodeBuffer, c.pasting, c.pasteBuffer.String()
+}
